@@ -23,13 +23,13 @@ func (c16) Budget(tier string) (int, int) {
 	return 50000, 90
 }
 func (c16) Rule() string {
-	return "seeded histories of 1-8 operations. Appending functions (ReadStringBytes, UnescapeStringContent, StdLibCompatibleStringBytes) run with a dirty destination (fault D-dirty: existing contents of length 0/1/5/37 that are an ASCII pattern or end in the middle of a multi-byte UTF-8 sequence, poisoned spare capacity of 0,1,2,3,4,len-1,len,len+1,4*len+16,len+1024 bytes - all 40 combinations enumerated per (function, input) in the thorough tier) and with an empty one: success and prefix++result must agree. Scratch functions (ReadString, DecodeString) run with nil / empty / dirty / too-small scratch that is reused by later operations. Every exported function runs on inputs allocated with poisoned spare capacity whose whole [:cap] is compared afterwards (also after failing calls). Fault X-overwrite: after an operation returns, its input (incl. spare capacity), scratch and destination are overwritten; every string and tree returned so far is re-compared with its snapshot after every later step. Non-trivial: a fault fired; distinct = distinct hashes of (operation, document class, destination config, outcome) sequences."
+	return "seeded histories of 1-8 operations. Appending functions (ReadStringBytes, UnescapeStringContent, StdLibCompatibleStringBytes) run with a dirty destination (fault D-dirty: existing contents of length 0/1/5/37 that are an ASCII pattern or end in the middle of a multi-byte UTF-8 sequence, poisoned spare capacity of 0,1,2,3,4,len-1,len,len+1,4*len+16,len+1024 bytes - all 40 combinations enumerated per (function, input) in the thorough tier) and with an empty one: success and prefix++result must agree. Scratch functions (ReadString, DecodeString) run with nil / empty / dirty / too-small scratch that is reused by later operations. Every exported function runs on inputs allocated with poisoned spare capacity whose whole [:cap] is compared afterwards (also after failing calls) and again after every later operation of the history (a later call sharing a scratch buffer or reader must not write to an earlier input either). Fault X-overwrite: after an operation returns, its input (incl. spare capacity), scratch and destination are overwritten; every string and tree returned so far is re-compared with its snapshot after every later step. Non-trivial: a fault fired; distinct = distinct hashes of (operation, document class, destination config, outcome) sequences."
 }
 func (c16) Assumptions() []string {
 	return []string{"results of failing calls are not constrained (the property speaks of success)", "inputs are sampled (string tokens with every escape kind, raw invalid UTF-8, documents of all classes)"}
 }
 func (c16) Required(tier string) []string {
-	return []string{"D-dirty", "X-overwrite", "dst-grew", "dst-fit-exactly", "escape-with-dirty-dst", "scratch-reused-by-later-call", "failing-call-input-checked", "tree-snapshot-rechecked", "dst-ends-mid-sequence-input-starts-with-continuation", "empty-container-returned-then-reader-reused"}
+	return []string{"D-dirty", "X-overwrite", "dst-grew", "dst-fit-exactly", "escape-with-dirty-dst", "scratch-reused-by-later-call", "failing-call-input-checked", "tree-snapshot-rechecked", "dst-ends-mid-sequence-input-starts-with-continuation", "empty-container-returned-then-reader-reused", "earlier-input-rechecked"}
 }
 
 var dstPrefixLens = []int{0, 1, 5, 37}
@@ -267,6 +267,11 @@ func (c16) Exec(sc *Scenario, st *Stats) *Violation {
 	pool.install()
 	defer uninstallPool()
 	var keptVals []kept
+	type keptInput struct {
+		data, snap []byte
+		where      string
+	}
+	var keptInputs []keptInput
 	var scratch []byte // reused across the run's scratch-taking operations
 	scratchUses := 0
 	reader := &rjson.ValueReader{}
@@ -395,9 +400,12 @@ func (c16) Exec(sc *Scenario, st *Stats) *Violation {
 				keptVals = append(keptVals, kept{live: live, snap: deepSnap(live), where: fmt.Sprintf("op %d %s", oi, op.Kind)})
 			}
 		}
+		// the input stays alive; a later call (sharing a scratch buffer or a reader with this one) must not write to it either
+		ki := keptInput{data: data, snap: snapIn, where: fmt.Sprintf("op %d %s", oi, op.Kind)}
 		if op.C == 1 {
 			st.fault("X-overwrite")
 			poison(data, 0x3F)
+			ki.snap = append([]byte(nil), data[:cap(data)]...)
 			if x.scratch != nil {
 				poison(*x.scratch, 0x3E)
 			}
@@ -405,6 +413,13 @@ func (c16) Exec(sc *Scenario, st *Stats) *Violation {
 				poison(x.dst, 0x3D)
 			}
 		}
+		for _, k := range keptInputs {
+			st.probe("earlier-input-rechecked")
+			if !bytes.Equal(k.snap, k.data[:cap(k.data)]) {
+				return viol("input-modified", fmt.Sprintf("the input of %s was modified by this later call", k.where))
+			}
+		}
+		keptInputs = append(keptInputs, ki)
 		for _, k := range keptVals {
 			if _, isTree := k.live.(map[string]interface{}); isTree {
 				st.probe("tree-snapshot-rechecked")
